@@ -42,6 +42,11 @@ pub mod ssri {
     #[verifier::external]
     impl ::std::fmt::Debug for Error { fn fmt(&self, f: &mut ::std::fmt::Formatter<'_>) -> ::std::fmt::Result { Ok(()) } }
     impl Integrity {
+        /// ssri `Integrity::from(data)`: the SHA-256 address of `data`
+        #[verifier::external_body]
+        pub fn from<B: crate::shims::bytes::BytesArg>(data: B) -> (r: Integrity)
+            ensures r@ == digest_of(AlgoV::Sha256, data.bytes()), sri_wf(r@)
+        { unimplemented!() }
         /// ssri: `pick_algorithm` indexes hashes[0] and `to_hex` unwraps a base64 decode:
         /// both panic unless the value is well-formed
         #[verifier::external_body]
